@@ -24,5 +24,7 @@ def run(chk):
         chk.require('comp_' + k, 10)
     chk.require('comp_far_address_sets', 10)
     chk.require('prefix_pairs', 10)
+    chk.require('comp_near_relatives', 50)
+    chk.require('comp_equal_pairs_checked', 50)
     chk.min_cases = 1000
     chk.coverage(build('cov'), 600)       # thorough tier: gcov line coverage of the anchored sources under this workload
